@@ -16,13 +16,73 @@ import (
 // current source (so a change of an error's code or name is picked up), under the assumption
 // that the variables are never reassigned - which is checked over the SSA of the repo.
 
+// constSlice is a package-level []string variable initialised with a literal and never reassigned.
+type constSlice struct {
+	pkg   *types.Package
+	name  string
+	elems []string
+}
+
 type sentinel struct {
 	name   string
 	rfc    bool // &RFC6749Error{...}
 	fields map[string]constant.Value
 }
 
+func (v *Verifier) collectConstSlices() {
+	for _, p := range v.pkgs {
+		if p.Types == nil || !strings.HasPrefix(p.Types.Path(), repoModule) {
+			continue
+		}
+		for _, f := range p.Syntax {
+			for _, d := range f.Decls {
+				gd, ok := d.(*ast.GenDecl)
+				if !ok || gd.Tok != token.VAR {
+					continue
+				}
+				for _, sp := range gd.Specs {
+					vs := sp.(*ast.ValueSpec)
+					for i, n := range vs.Names {
+						if i >= len(vs.Values) {
+							continue
+						}
+						cl, ok := vs.Values[i].(*ast.CompositeLit)
+						if !ok {
+							continue
+						}
+						obj := p.Types.Scope().Lookup(n.Name)
+						if obj == nil {
+							continue
+						}
+						sl, ok := obj.Type().Underlying().(*types.Slice)
+						if !ok {
+							continue
+						}
+						if b, ok := sl.Elem().Underlying().(*types.Basic); !ok || b.Info()&types.IsString == 0 {
+							continue
+						}
+						var elems []string
+						good := true
+						for _, el := range cl.Elts {
+							tv, ok := p.TypesInfo.Types[el]
+							if !ok || tv.Value == nil || tv.Value.Kind() != constant.String {
+								good = false
+								break
+							}
+							elems = append(elems, constant.StringVal(tv.Value))
+						}
+						if good {
+							v.constSlices = append(v.constSlices, &constSlice{p.Types, n.Name, elems})
+						}
+					}
+				}
+			}
+		}
+	}
+}
+
 func (v *Verifier) collectSentinels() {
+	v.collectConstSlices()
 	var root *types.Package
 	for _, p := range v.pkgs {
 		if p.Types != nil && p.Types.Path() == repoModule {
@@ -105,6 +165,14 @@ func (v *Verifier) collectSentinels() {
 			}
 		}
 	}
+	var keptCS []*constSlice
+	for _, cs := range v.constSlices {
+		if reassigned[cs.pkg.Path()+"."+cs.name] {
+			continue
+		}
+		keptCS = append(keptCS, cs)
+	}
+	v.constSlices = keptCS
 	var kept []*sentinel
 	for _, s := range v.sentinels {
 		if reassigned[s.name] {
@@ -123,8 +191,11 @@ func (v *Verifier) scanStores(fn *ssa.Function, out map[string]bool) {
 	for _, b := range fn.Blocks {
 		for _, in := range b.Instrs {
 			if st, ok := in.(*ssa.Store); ok {
-				if g, ok := st.Addr.(*ssa.Global); ok && g.Pkg.Pkg.Path() == repoModule {
-					out[g.Name()] = true
+				if g, ok := st.Addr.(*ssa.Global); ok {
+					if g.Pkg.Pkg.Path() == repoModule {
+						out[g.Name()] = true
+					}
+					out[g.Pkg.Pkg.Path()+"."+g.Name()] = true
 				}
 			}
 		}
@@ -162,12 +233,9 @@ func (v *Verifier) assumeSentinels(c *Ctx, st *State, guard *Term) {
 			continue
 		}
 		gname := smtName("glob_" + repoModule + "." + s.name)
-		if !c.sc.declSeen[gname] {
-			c.sc.declareConst(gname, SV)
-			c.sc.assert(mk(SBool, "(and (not (= %s null)) (< (birth %s) 0))", gname, gname))
-		}
+		c.sc.declareConst(gname, SV)
 		ptr := c.loadObj(st, &Term{gname, SV}, obj.Type()).T
-		facts := []*Term{tNot(tEq(ptr, tNull)), mk(SBool, "(< (birth %s) 0)", ptr.S)}
+		facts := []*Term{mk(SBool, "(and (not (= %s null)) (< (birth %s) 0))", gname, gname), tNot(tEq(ptr, tNull)), mk(SBool, "(< (birth %s) 0)", ptr.S)}
 		if s.rfc {
 			facts = append(facts, tEq(tApp(SInt, "dyntype", ptr), c.typeID(types.NewPointer(rfcT))))
 			facts = append(facts, tEq(tApp(SV, "ehead", ptr), ptr))
@@ -199,6 +267,20 @@ func (v *Verifier) assumeSentinels(c *Ctx, st *State, guard *Term) {
 		}
 		c.sc.gaxioms = append(c.sc.gaxioms, tImp(guard, tAnd(facts...)).S)
 		_ = fmt.Sprint
+	}
+	for _, cs := range v.constSlices {
+		obj := cs.pkg.Scope().Lookup(cs.name)
+		if obj == nil {
+			continue
+		}
+		gname := smtName("glob_" + cs.pkg.Path() + "." + cs.name)
+		c.sc.declareConst(gname, SV)
+		val := c.loadObj(st, &Term{gname, SV}, obj.Type()).T
+		var elems []*Term
+		for _, e := range cs.elems {
+			elems = append(elems, c.sc.strLit(e))
+		}
+		c.sc.gaxioms = append(c.sc.gaxioms, tImp(guard, tEq(val, c.mkSlice(SStr, elems))).S)
 	}
 	if len(plain) > 1 {
 		parts := make([]string, len(plain))
